@@ -50,6 +50,10 @@ def well_nested(segs, strict_body=True):
             if depth != 1:
                 return False
             depth = 0
+        elif sid == 'TA1':
+            # interchange acknowledgement: belongs to the interchange level, outside any functional group
+            if depth != 1:
+                return False
         else:
             if depth != 3 and strict_body:
                 return False
@@ -120,6 +124,8 @@ def recount(segs, check_lx=False):
             if toint(el(e, 1)) != n_gs:
                 d.append(('isa', '021'))
             open_isa = None
+        elif sid == 'TA1' and open_gs is None:
+            pass
         else:
             n_seg += 1
             if sid == 'HL':
